@@ -100,19 +100,26 @@ def replay_engine(rep):
     res = tlc.require_ok(tlc.run('Gen_ParserText', workers=1, env={'OUT_FILE': out}, timeout=900), 'Gen_ParserText')
     rep.add_tlc(res, 'Gen_ParserText (as-coded list engine on all texts <= 6 chars; implements the RFC 9110 list rule)')
     n = 0
+    hung = 0
     for line in open(out):
         c = json.loads(line)
         n += 1
         data = bytes(c['text'])
-        parser = ParserText(data)
-        try:
-            parser.parse_string_array('v', ';', separator_spaces=' ' if c['spaces'] else '', skip_empty=c['skip'],
-                                      max_item_num=None if c['maxitems'] < 0 else c['maxitems'])
-            got = {'k': 'ok', 'items': [list(x.encode('ascii')) for x in parser['v']], 'pos': parser.parsed_length}
-        except InvalidValue:
-            got = {'k': 'INV', 'items': [], 'pos': 0}
-        except Exception as e:  # pylint: disable=broad-except
-            got = {'k': type(e).__name__, 'items': [], 'pos': 0}
+
+        def run_list(c):
+            parser = ParserText(data)
+            try:
+                parser.parse_string_array('v', ';', separator_spaces=' ' if c['spaces'] else '', skip_empty=c['skip'],
+                                          max_item_num=None if c['maxitems'] < 0 else c['maxitems'])
+                return {'k': 'ok', 'items': [list(x.encode('ascii')) for x in parser['v']], 'pos': parser.parsed_length}
+            except InvalidValue:
+                return {'k': 'INV', 'items': [], 'pos': 0}
+            except Exception as e:  # pylint: disable=broad-except
+                return {'k': type(e).__name__, 'items': [], 'pos': 0}
+        if hung >= 3:
+            continue
+        got = _with_deadline(run_list, c, 1.0)
+        hung += got['k'] == 'does-not-terminate'
         if got != c['res']:
             params = 'spaces=%s,skip_empty=%s,max_item_num=%s' % (c['spaces'], c['skip'], c['maxitems'])
             rep.violation('ParserText.parse_string_array|list-engine-differs-from-model|%s' % params,
@@ -123,9 +130,109 @@ def replay_engine(rep):
     rep.evaluations += n
 
 
+class _Deadline(BaseException):
+    pass
+
+
+def _with_deadline(func, arg, seconds=3.0):
+    """a primitive that does not come back is a result too (a reader that stops advancing): never hang the check"""
+    import signal
+
+    def on_alarm(signum, frame):
+        raise _Deadline()
+    old = signal.signal(signal.SIGALRM, on_alarm)
+    signal.setitimer(signal.ITIMER_REAL, seconds)
+    try:
+        return func(arg)
+    except _Deadline:
+        return {'k': 'does-not-terminate', 'items': [], 'pos': 0}
+    finally:
+        signal.setitimer(signal.ITIMER_REAL, 0)
+        signal.signal(signal.SIGALRM, old)
+
+
+def _run_prim(c):
+    """one generated case on the real ParserText: the result in the model's terms"""
+    from cryptoparser.common.parse import ParserText
+    from cryptoparser.common.exception import NotEnoughData
+    from cryptodatahub.common.exception import InvalidValue
+    data = bytes(c['text'])
+    seps = bytes(c['seps']).decode('ascii')
+    parser = ParserText(data)
+    try:
+        if c['op'] == 'numeric_array':
+            vals, n = parser._parse_numeric_array('v', None if c['itemnum'] < 0 else c['itemnum'], seps or None, bytes, c['floating'])   # pylint: disable=protected-access
+            got = {'k': 'ok', 'items': [list(v) for v in vals], 'pos': n}
+            # the public entry points over the same engine
+            public = None
+            if not c['floating']:
+                p2 = ParserText(data)
+                p2.parse_numeric_array('v', None if c['itemnum'] < 0 else c['itemnum'], seps or None)
+                public = (p2.parsed_length, [str(x) for x in p2['v']])
+                if public[0] != n or [int(bytes(v)) for v in vals] != p2['v']:
+                    got['k'] = 'public-entry-differs'
+            if c['itemnum'] == 1 and not seps:
+                p3 = ParserText(data)
+                (p3.parse_float if c['floating'] else p3.parse_numeric)('v')
+                if p3.parsed_length != n or p3['v'] != (float if c['floating'] else int)(bytes(vals[0])):
+                    got['k'] = 'public-entry-differs'
+        elif c['op'] == 'separator':
+            parser.parse_separator(seps, c['min'], None if c['max'] < 0 else c['max'])
+            got = {'k': 'ok', 'items': [], 'pos': parser.parsed_length}
+        elif c['op'] == 'until':
+            (parser.parse_string_until_separator_or_end if c['mayend'] else parser.parse_string_until_separator)('v', seps)
+            got = {'k': 'ok', 'items': [list(parser['v'].encode('ascii'))], 'pos': parser.parsed_length}
+        elif c['op'] == 'bool':
+            parser.parse_bool('v')
+            got = {'k': 'ok', 'items': [[1 if parser['v'] is True else 0 if parser['v'] is False else 9]], 'pos': parser.parsed_length}
+        else:
+            parser.parse_string_by_length('v', c['min'], None if c['max'] < 0 else c['max'])
+            got = {'k': 'ok', 'items': [list(parser['v'].encode('ascii'))], 'pos': parser.parsed_length}
+    except InvalidValue:
+        got = {'k': 'INV', 'items': [], 'pos': 0}
+    except NotEnoughData:
+        got = {'k': 'NED', 'items': [], 'pos': 0}
+    except Exception as e:  # pylint: disable=broad-except
+        got = {'k': type(e).__name__, 'items': [], 'pos': 0}
+    if got['k'] != 'ok' and parser.parsed_length != 0:
+        got['k'] += '+cursor-moved'
+    return got
+
+
+def replay_prims(rep):
+    """specification -> code for the other ParserText primitives (number lists, floats, separators, until-separator, literals,
+    by-length): every text of <= 5 characters with every small parameter combination, outcome computed by TLC"""
+    out = os.path.join(rep.build, 'gen_text_prims.ndjson')
+    res = tlc.require_ok(tlc.run('Gen_ParserTextPrims', workers=1, env={'OUT_FILE': out}, timeout=900), 'Gen_ParserTextPrims')
+    rep.add_tlc(res, 'Gen_ParserTextPrims (as-coded number list / separator / until / bool / by-length readers on all short texts; '
+                     'a number list consumes exactly the join of its items)')
+    n = 0
+    by_op = {}
+    hung = {}
+    for line in open(out):
+        c = json.loads(line)
+        n += 1
+        by_op[c['op']] = by_op.get(c['op'], 0) + 1
+        if hung.get(c['op'], 0) >= 3:
+            continue           # this reader stops advancing: reported, no need to wait for every case
+        got = _with_deadline(_run_prim, c, 1.0)
+        if got['k'] == 'does-not-terminate':
+            hung[c['op']] = hung.get(c['op'], 0) + 1
+        if got != c['res']:
+            params = 'itemnum=%s,seps=%r,floating=%s,min=%s,max=%s,mayend=%s' % (c['itemnum'], bytes(c['seps']).decode(), c['floating'], c['min'], c['max'], c['mayend'])
+            rep.violation('ParserText.%s|text-primitive-differs-from-model|%s' % (c['op'], got['k']),
+                          'ParserText %s gives another result than its as-coded model for %r (%s): model %s, implementation %s' % (
+                              c['op'], bytes(c['text']), params, c['res'], got),
+                          {'op': c['op'], 'text': bytes(c['text']).decode('ascii'), 'params': params, 'model': c['res'], 'implementation': got})
+    rep.extra['text_primitive_cases_replayed'] = by_op
+    rep.traces += n
+    rep.evaluations += n
+
+
 def run(rep):
     from .. import corpus
     replay_engine(rep)
+    replay_prims(rep)
     thorough = rep.tier == 'thorough'
     cases = []
     meta = []
